@@ -261,23 +261,25 @@ def writeRuns (c : Cfg) (q : List Nat) (i : In) : Bool :=
   | some a => remaining c q != 0 && decide ((if c.useMax then a.maxCount else a.count) ≤ remaining c q)
   | none => false
 
-/-- number of elements a `read(n)` removes: `min(n, level, read_width)` -/
-def readCount (c : Cfg) (q : List Nat) (n : Nat) : Nat := min n (min q.length c.rw)
+/-- number of elements the `read` of this cycle removes: `min(count, level, read_width)`
+    (0 if `read` is not called; on the empty queue, where `read` does not execute, it is 0 anyway) -/
+def readN (c : Cfg) (q : List Nat) (i : In) : Nat :=
+  match i.read with
+  | some n => min n (min q.length c.rw)
+  | none => 0
+
+/-- the elements the `write` of this cycle appends: the first `count` data words, if it executes -/
+def written (c : Cfg) (q : List Nat) (i : In) : List Nat :=
+  match i.write with
+  | some a => if writeRuns c q i then a.data.take a.count else []
+  | none => []
 
 def step (c : Cfg) (q : List Nat) (i : In) : List Nat × Out :=
-  let rrun := i.read.isSome && !q.isEmpty
-  let n := match i.read with
-    | some n => readCount c q n
-    | none => 0
-  let wrun := writeRuns c q i
-  let q1 := q.drop n
-  let q2 := match i.write with
-    | some a => if wrun then q1 ++ a.data.take a.count else q1
-    | none => q1
-  (if i.clear then [] else q2,
-   { read := if rrun then some (q.take n) else none,
+  let n := readN c q i
+  (if i.clear then [] else q.drop n ++ written c q i,
+   { read := if i.read.isSome && !q.isEmpty then some (q.take n) else none,
      peek := if i.peek && !q.isEmpty then some (q.take c.rw) else none,
-     write := wrun,
+     write := writeRuns c q i,
      clear := i.clear })
 
 def run (c : Cfg) (q : List Nat) : List In → List Nat × List Out
